@@ -278,7 +278,7 @@ def final_checks(ctx: Ctx, m: Monitor, bio):
                 # known finding: the neighbour the template atom stands for is not bonded to this residue (chain gap),
                 # yet its atom serves as a fit point (update_bonds sets the pointer untested when the partner atom of
                 # the peptide bond is missing: theorem peptide_link_untested_refuted)
-                out.append(({"kind": "fit-across-a-chain-gap", "template": t, "pointer": gap_pointer_kind(c, t)}, f"{c['residue']} {c['name']} ({c['caller']}): fitted on {an} of the {where} residue although there is a gap in the chain between the two (CA-CA > 4.5 A)"))
+                out.append(({"kind": "fit-across-a-chain-gap", "template": t, "pointer": gap_pointer_kind(c, t)}, f"{c['residue']} {c['name']} ({c['caller']}): fitted on {an} of the {where} residue although there is a gap in the chain between the two (CA-CA > 4.05 A)"))
                 break
             if (where, an) != want:
                 out.append(({"kind": "fit-on-wrong-atom", "caller": c["caller"], "template": t if t in ("N+1", "C-1") else "own"}, f"{c['residue']} {c['name']} ({c['caller']}): the fit point for template atom {t} is {an} of the {where} residue, expected {want[1]} of the {want[0]} residue"))
